@@ -150,7 +150,7 @@ def main():
         ],
         "checks": checks,
         "not_applicable": na,
-        "notes": "Every check: exit 0 = held on everything explored (KNOWN-FINDING lines for recorded defects), exit 1 + VIOLATION line, exit 2 = harness error. Runs are a pure function of the tree and VERIF_SEED.",
+        "notes": "Every check: exit 0 = held on everything explored (KNOWN-FINDING lines for recorded defects), exit 1 + VIOLATION line, exit 2 = harness error. Runs are a pure function of the tree and VERIF_SEED (budgets are CPU seconds per shard; running out of budget, or a case starved of CPU, makes a run inconclusive, never a violation). Beyond the core domain named per check, every check also generates the public spellings of each operation, histories of process-wide state (encoding switches, repeated run() calls, re-registration), re-entrant callbacks and falsy-but-valid values, as listed per check in DESIGN.md sections 8 and 9.",
     }
     with open(os.path.join(ROOT, "MANIFEST.json"), "w") as f:
         json.dump(manifest, f, indent=1)
